@@ -25,6 +25,7 @@
    [parse_number_eq]); the lemmas are then by induction on the named loops. *)
 From SDJWT Require Import Base.Json Base.JsonFacts Params Codec.Base64 Codec.Utf8 Codec.JsonPrint Codec.JsonParse
   Codec.DisclosureText Model.Common Model.Issuer Model.Holder Model.Jwt Model.Verifier.
+From SDJWT Require Proofs.JsonLaxFacts.
 From Coq Require Import Lia.
 
 (* ------------------------------------------------------------------ *)
@@ -794,11 +795,26 @@ Proof. intros. unfold jwt_payload_decode. crunch idtac. Qed.
 Lemma parse_compact_okerr : forall input, okerr (parse_compact input).
 Proof. intros. unfold parse_compact. crunch ltac:(apply jwt_payload_decode_okerr). Qed.
 
-Lemma parse_json_form_corner : forall input, corner ws_parse (parse_json_form input).
+Lemma parse_json_form_strict_corner : forall input, corner ws_parse (parse_json_form_strict input).
 Proof.
-  intros. unfold parse_json_form, ws_parse, W_sdjwt_array.
+  intros. unfold parse_json_form_strict, ws_parse, W_sdjwt_array.
   ccrunch ltac:(apply okerr_corner; apply jwt_payload_decode_okerr).
 Qed.
+
+Lemma parse_json_form_corner : forall input, corner ws_parse (parse_json_form input).
+Proof.
+  apply (JsonLaxFacts.parse_json_form_ind (corner ws_parse)); [apply parse_json_form_strict_corner | exact I].
+Qed.
+
+(* both readings of the JSON serialization (strict whole text / unknown members blanked by
+   Codec/JsonLax.v) return: no Panic, no OutOfFuel, for any input *)
+Theorem parse_json_form_never_panics : forall input,
+  (forall s, parse_json_form input <> Panic s) /\ parse_json_form input <> OutOfFuel.
+Proof.
+  intros input. pose proof (parse_json_form_corner input) as C.
+  split; [intros s E | intros E]; rewrite E in C; exact C.
+Qed.
+Print Assumptions parse_json_form_never_panics.
 
 Lemma parse_sd_jwt_corner : forall fmt input, corner ws_parse (parse_sd_jwt fmt input).
 Proof.
@@ -863,12 +879,18 @@ Qed.
 Lemma parse_json_form_unmodelled : forall input w,
   parse_json_form input = Unmodelled w -> exists l, parse_json_raw input = Some (JArr l).
 Proof.
-  intros input w P. unfold parse_json_form in P.
-  destruct (parse_json_raw input) as [[| | | |l|raw]|]; try discriminate.
-  { eexists; reflexivity. }
-  exfalso.
-  match type of P with ?x = _ => assert (K : okerr x) by (crunch ltac:(apply jwt_payload_decode_okerr)) end.
-  rewrite P in K. exact K.
+  assert (S : forall t w, parse_json_form_strict t = Unmodelled w -> exists l, parse_json_raw t = Some (JArr l)).
+  { intros input w P. unfold parse_json_form_strict in P.
+    destruct (parse_json_raw input) as [[| | | |l|raw]|]; try discriminate.
+    { eexists; reflexivity. }
+    exfalso.
+    match type of P with ?x = _ => assert (K : okerr x) by (crunch ltac:(apply jwt_payload_decode_okerr)) end.
+    rewrite P in K. exact K. }
+  intros input w P.
+  destruct (JsonLaxFacts.parse_json_form_cases input) as [E | (N & [(t & L & E) | (_ & E)])]; rewrite E in P.
+  - exact (S input w P).
+  - exfalso. destruct (S t w P) as (l & A). exact (JsonLaxFacts.lax_path_not_array input t N L l A).
+  - discriminate P.
 Qed.
 
 (* The Unmodelled corners, listed.  [holder_new] has exactly one: the JSON
